@@ -4,6 +4,7 @@ import SfntV.Prelude.Bytes
 /-!
 Line-protocol handlers for area `subset` (C10).
 `subset.run`      V  model of `(*Font).Subset` under the iteration order recovered from `order=`
+`subset.again`    D  second Subset call on the same font value = model on the original font
 `subset.check`    D  the property's clauses evaluated directly on the Go result `res=`
 `subset.writable` V  can the subset be written (CFF encoding contiguity) and how many glyphs come back
 `subset.cffrun`   V  (*cff.Outlines).Subset called directly, against the SubsetCFF model
@@ -366,7 +367,9 @@ def prefixes : List String := ["subset."]
 def handle (op : String) (fs : List (String × String)) : String :=
   match parseFont fs, (getField fs "glyphs").bind (natsSep ",") with
   | some f, some glyphs =>
-    if op == "subset.run" then
+    if op == "subset.run" || op == "subset.again" then
+      -- subset.again: the second of two Subset calls on the same font value; the model is a pure
+      -- function of the font, so the expected result is the model's on the original font
       let target := match getField fs "order" with
         | some "-" => none
         | some o => natsSep "," o
